@@ -176,7 +176,42 @@ proof! {
 	}
 }
 
+proof! {
+	[hash_mix, rand, bitmap] fn segment_prunable_uncompacted_complete() {
+		// A prunable MMR whose spent leaves are pruned but not yet compacted away: the serving node
+		// still has every hash, so the segment it produces (prunable = true) carries all of them.
+		// Whatever the unspent bitmap says (any subset of the leaves: whole segment spent, sibling
+		// subtree spent too, alternating, ...), that honest segment must validate against the root.
+		let (ba, _leaves) = build();
+		let mmr = ReadonlyPMMR::at(&ba, SIZE);
+		let root = mmr.root().unwrap();
+		let id = SegmentIdentifier { height: H, idx: IDX };
+		let seg = Segment::<Elem>::from_pmmr(id, &mmr, true).unwrap();
+		let mask: u8 = nd::any();
+		nd::assume((mask as u64) < (1u64 << NL));
+		let mut bm = croaring::Bitmap::new();
+		let mut i = 0;
+		while i < NL {
+			if mask >> i & 1 == 1 {
+				bm.add(i as u32);
+			}
+			i += 1;
+		}
+		let r = seg.validate(SIZE, Some(&bm), root);
+		check!(r.is_ok(), "an honest uncompacted segment validates under every unspent bitmap");
+		let first_leaf = (IDX << H) as usize;
+		let seg_leaves = core::cmp::min(1usize << H, NL - first_leaf);
+		let seg_mask = (((1u32 << seg_leaves) - 1) << first_leaf) as u8;
+		cover!(mask & seg_mask == 0, "every leaf of the segment is spent");
+		cover!(mask == 0, "everything is spent");
+		cover!(mask & seg_mask == seg_mask, "every leaf of the segment is unspent");
+		core::mem::forget(seg);
+		core::mem::forget(ba);
+	}
+}
+
 pub const HARNESSES: &[(&str, fn())] = &[
+	("c16::segment_prunable_uncompacted_complete", segment_prunable_uncompacted_complete),
 	("c16::segment_complete", segment_complete),
 	("c16::segment_sound", segment_sound),
 ];
